@@ -198,9 +198,11 @@ def handleE2E {K V P H M Pat} [DecidableEq K] [DecidableEq V] [DecidableEq P]
     let implMany := many.map fun (i, m) => s!"{i}:{dom.sMap m}"
     nMatches := nMatches + implMany.length
     -- model traversal on the dumped automaton
+    let mut modelMatches : Option (List (Nat × M)) := none
     match Pm.run dom.D A h FUEL with
     | .error e => out := { out with dis := out.dis ++ [s!"RUN.run model-error {e}"] }
     | .ok (ms, _) =>
+      modelMatches := some ms
       let modelMany := ms.map fun (i, m) => s!"{i}:{dom.sMap m}"
       if sortStrings modelMany != sortStrings implMany then
         out := { out with dis := out.dis ++
@@ -260,9 +262,15 @@ def handleE2E {K V P H M Pat} [DecidableEq K] [DecidableEq V] [DecidableEq P]
             | some sig => out := { out with known := out.known ++ [s!"C01 {sig}"] }
             | none => out := { out with oracle := out.oracle ++ [s!"C01 pattern={i} reported-but-not-occurring={join falsePos}"] }
           if !missed.isEmpty then
-            match dom.known p with
-            | some sig => out := { out with known := out.known ++ [s!"C02 {sig}"] }
-            | none => out := { out with oracle := out.oracle ++ [s!"C02 pattern={i} occurring-but-not-reported={join missed}"] }
+            -- a miss is a listed known finding only if the pattern carries the signature AND the
+            -- model (which reproduces the pinned algorithm) misses the same occurrences
+            let modelMissed := match modelMatches with
+              | some mm => (judge p h ((mm.filter fun (x : Nat × M) => x.1 == i).map fun (x : Nat × M) => x.2)).2.1
+              | none => missed
+            let newMisses := missed.filter fun x => !modelMissed.contains x
+            match dom.known p, newMisses.isEmpty with
+            | some sig, true => out := { out with known := out.known ++ [s!"C02 {sig}"] }
+            | _, _ => out := { out with oracle := out.oracle ++ [s!"C02 pattern={i} occurring-but-not-reported={join (if newMisses.isEmpty then missed else newMisses)}"] }
           if !dups.isEmpty then
             out := { out with oracle := out.oracle ++ [s!"C07 pattern={i} reported-more-than-once={join dups}"] }
       -- a non-compiled id must never be reported
